@@ -52,6 +52,24 @@ fn main() {
             }
             println!("ok={ok} compile_errors={cerr} error_values={errv} violations={viol} crashes={crash}");
         }
+        Some("docerrval-probe") => {
+            install_panic_hook();
+            let (calls, _, _) = xsim::docsig::calls();
+            for c in &calls {
+                let text = format!("{}\nfn main()->str{{ get_error({}).or(\"<value>\") }}\n", xsim::docsig::PRELUDE, c.call);
+                let mut sc = Scenario::standard(&text, Limits::calibration());
+                sc.perms = [Some(true); 6];
+                sc.limits.search = Some(100_000);
+                sc.limits.ud_call = Some(200_000);
+                if let Ok(r) = run_scenario(&sc) {
+                    match r.main_outcome() {
+                        Outcome::Value(v) if v != "\"<value>\"" => println!("ERRVAL {} :: {} :: {v}", c.label, c.call),
+                        Outcome::Value(_) => {}
+                        o => println!("OTHER {} :: {} :: {:?}", c.label, c.call, o),
+                    }
+                }
+            }
+        }
         Some("docerr-probe") => {
             install_panic_hook();
             let (calls, _, _) = xsim::docsig::calls();
